@@ -30,6 +30,8 @@ def run(chk):
     chk.rule("ROUND", "the export converters (and every scaling helper) hand doubles to Point64's rounding constructor; none converts to int64 with a "
              "bare cast (the native calls round, so truncation would differ by one unit)")
     chk.rule("FORWARD.param", "each exported parameter reaches the native parameter of its meaning (by declaration name), none of another meaning")
+    chk.rule("FORWARD.native", "the exported RectClip / RectClipLines / MinkowskiSum / MinkowskiDiff functions use the native operation of their own name "
+             "and not its twin (identical signatures: parameter forwarding cannot tell them apart)")
     chk.rule("FORWARD.output", "each output parameter is assigned a marshalled result")
     chk.rule("SCALE.wrapper", "dimensional analysis of the D exports: S^1 at every integer-API length argument, S^0 at the return")
     for cfg in cfgs:
@@ -37,6 +39,7 @@ def run(chk):
         e4.rule_layout(db, chk, cfg)
         ex = E5(db, chk, cfg).exported()
         e4.rule_forward(db, chk, cfg, ex)
+        e4.rule_native_twin(db, chk, cfg, ex)
         e4.rule_cursor_threaded(db, chk, cfg)
         if "z" in cfg.split("+"):
             nz = e4.rule_z_codec(db, chk, cfg)
